@@ -60,9 +60,15 @@ Proof. vm_compute. reflexivity. Qed.
 
 (* IsRequestLocalResolutionError: the error classes the resolver handler marks as request-local *)
 Definition request_local_errors_source_expected : list N :=
-  [114;101;116;117;114;110;101;114;114;111;114;115;46;73;115;40;101;114;114;44;69;114;114;82;101;99;117;114;115;105;111;110;87;111;114;107;76;105;109;105;116;41;124;124;101;114;114;111;114;115;46;73;115;40;101;114;114;44;69;114;114;82;101;115;111;108;117;116;105;111;110;65;116;116;101;109;112;116;76;105;109;105;116;41;124;124;101;114;114;111;114;115;46;73;115;40;101;114;114;44;69;114;114;70;97;105;108;117;114;101;80;114;111;98;101;76;105;109;105;116;41;124;124;101;114;114;111;114;115;46;73;115;40;101;114;114;44;69;114;114;77;97;120;82;101;99;117;114;115;105;111;110;41;124;124;101;114;114;111;114;115;46;73;115;40;101;114;114;44;99;111;110;116;101;120;116;46;67;97;110;99;101;108;101;100;41;124;124;101;114;114;111;114;115;46;73;115;40;101;114;114;44;99;111;110;116;101;120;116;46;68;101;97;100;108;105;110;101;69;120;99;101;101;100;101;100;41]%N.
+  [114;101;116;117;114;110;101;114;114;111;114;115;46;73;115;40;101;114;114;44;69;114;114;82;101;99;117;114;115;105;111;110;87;111;114;107;76;105;109;105;116;41;124;124;101;114;114;111;114;115;46;73;115;40;101;114;114;44;69;114;114;82;101;115;111;108;117;116;105;111;110;65;116;116;101;109;112;116;76;105;109;105;116;41;124;124;101;114;114;111;114;115;46;73;115;40;101;114;114;44;69;114;114;70;97;105;108;117;114;101;80;114;111;98;101;76;105;109;105;116;41;124;124;101;114;114;111;114;115;46;73;115;40;101;114;114;44;69;114;114;82;101;115;111;108;117;116;105;111;110;67;97;112;97;99;105;116;121;41;124;124;101;114;114;111;114;115;46;73;115;40;101;114;114;44;69;114;114;77;97;120;82;101;99;117;114;115;105;111;110;41;124;124;101;114;114;111;114;115;46;73;115;40;101;114;114;44;99;111;110;116;101;120;116;46;67;97;110;99;101;108;101;100;41;124;124;101;114;114;111;114;115;46;73;115;40;101;114;114;44;99;111;110;116;101;120;116;46;68;101;97;100;108;105;110;101;69;120;99;101;101;100;101;100;41]%N.
 Lemma gen_request_local_errors_source : map strip_ws request_local_errors_source = [request_local_errors_source_expected].
 Proof. vm_compute. reflexivity. Qed.
+
+(* both load-shedding errors of the resolver wrap middleware.ErrResolutionCapacity *)
+Lemma gen_capacity_errors_wrap_sentinel :
+  capacity_global_wraps = [[109;105;100;100;108;101;119;97;114;101;46;69;114;114;82;101;115;111;108;117;116;105;111;110;67;97;112;97;99;105;116;121]%N] /\
+  capacity_zone_wraps = capacity_global_wraps.
+Proof. split; reflexivity. Qed.
 
 (* dns.TypeSOA, dns.ExtendedErrorCodeCachedError, dns.RcodeServerFailure: the
    symbols the code names (their numeric values 6 / 13 / 2 are tied by the
